@@ -15,7 +15,6 @@ import SymbolVerif.Proofs.BytesLemmas
 import SymbolVerif.Proofs.CurveLemmas
 import SymbolVerif.Proofs.FramingLemmas
 import SymbolVerif.Generated.C07Consts
-import Mathlib.Data.ZMod.Basic
 namespace SymbolVerif.C07
 open SymbolVerif SymbolVerif.Bytes SymbolVerif.Sdk.Ed25519 SymbolVerif.Sdk.Framing SymbolVerif.Curve
 
@@ -534,22 +533,6 @@ example : isAggregate (List.replicate 108 0 ++ [1, 0x98, 0x54, 0x41] ++ List.rep
 example : signingPayloadSymbol [7] (List.replicate 108 0 ++ [1, 0x98, 0x54, 0x41, 9]) = some [7, 1, 0x98, 0x54, 0x41, 9] := by decide
 example : leNat ([0x04, 0x10, 0, 0] : Bytes) = 0x1004 := by decide
 example : votingIdentifiers 3 6 = [6, 5, 4, 3] ∧ votingIdentifiers 5 4 = [] := by decide
-
-/-- `Lawful`, exact order, injective encoding and the decode hypothesis are jointly satisfiable: the integers modulo 11 with
-    base point 1, `L = 11`, points encoded as one byte followed by 31 zeros. -/
-def toyCurve : Curve (ZMod 11) where
-  add := (· + ·)
-  neg := (- ·)
-  zero := 0
-  smul := fun n P => (n : ZMod 11) * P
-  B := 1
-  L := 11
-  encode := fun P => UInt8.ofNat P.val :: zeros 31
-  decode := fun bs => match bs with | [] => none | b :: _ => some (b.toNat : ZMod 11)
-
-theorem toyCurve_lawful : Lawful toyCurve :=
-  { add_eq := fun _ _ => rfl, neg_eq := fun _ => rfl, zero_eq := rfl, smul_eq := fun n P => (nsmul_eq_mul n P).symm,
-    order := by decide, L_pos := by decide, L_le := by decide, encode_length := fun _ => by simp [toyCurve, zeros] }
 
 example : addOrderOf toyCurve.B = toyCurve.L := by
   show addOrderOf (1 : ZMod 11) = 11
